@@ -218,6 +218,8 @@ def render_csv(rows, comments=False):
         lines.append("")
         lines.append("# section")
     for r in rows:
-        lines.append(",".join(csv_quote(x) for x in (r["pattern"], r["merchant"], r.get("category", ""), r.get("subcategory", ""),
-                                                       r.get("tags", ""))))
+        cells = [r["pattern"], r["merchant"], r.get("category", ""), r.get("subcategory", ""), r.get("tags", "")]
+        if r.get("cells"):
+            cells = cells[:r["cells"]]          # a short row: the trailing cells are absent, not empty
+        lines.append(",".join(csv_quote(x) for x in cells))
     return "\n".join(lines) + "\n"
